@@ -234,6 +234,19 @@ def _cli_subprocess(ctx, path, tag, detail):
         ctx.note_inconclusive("CLI subprocess timed out")
         return
     ctx.count("cli_subprocess_runs")
+    if r.returncode != 0 and "Traceback (most recent call last)" not in r.stderr:
+        # the same file as a user starts it: from its own directory, by its bare name (and as ./name)
+        from mpv import tool
+        for how in (os.path.basename(path), "./" + os.path.basename(path)):
+            r2 = tool.run_tool(["eems-csv", how], cwd=os.path.dirname(path))
+            if r2 is None:
+                continue
+            ctx.count("cli_subprocess_runs")
+            first = [ln for ln in r.stderr.splitlines() if ln.startswith("Problem")][:1]
+            first2 = [ln for ln in r2[2].splitlines() if ln.startswith("Problem")][:1]
+            if r2[0] == 0 or "Traceback (most recent call last)" in r2[2] and "Problem: An unexpected error occurred" not in r2[2] or (first and first2 and first[0].split(":")[0:2] != first2[0].split(":")[0:2]):
+                ctx.fail("%s:cli-process-started-in-the-directory-of-the-file-behaves-differently" % tag.split(":")[0], dict(detail, invoked_as=how, exit=r2[0], stderr=r2[2][-400:], with_full_path=r.stderr[-200:]))
+                return
     if r.returncode == 0:
         ctx.fail("%s:cli-process-exit-0" % tag, dict(detail, stderr=r.stderr[-300:]))
     elif "Traceback (most recent call last)" in r.stderr and "Problem: An unexpected error occurred" not in r.stderr:
